@@ -175,3 +175,93 @@ def make_special_obligation(fn):
 
 for _fn in SPECIAL:
     make_special_obligation(_fn)
+
+# ------------------------------------------------------------------------------------------------
+# Complex dilogarithm (Bernoulli series in u = -ln(1 - w) after a functional equation): region contract
+# ------------------------------------------------------------------------------------------------
+from gm2v.values import Cx as _Cx
+
+@obligation('C01.dilog_complex.regions', fns=[(DL, 'dilog'), (DL, 'log1p')], replay=lambda m, wd: replay_cdilog(m, wd))
+def _(ctx):
+    """ensures (Im z != 0, |z|^2 >= eps): in each of the four branches the Bernoulli series is entered with u = -ln(1 - w) for a w inside its domain
+    of fast convergence, |w|^2 <= 1 and Re w <= 1/2 (so |u| < 1.5 << 2 pi):  w = z | 1/z (inversion) | 1 - z (reflection, u = -ln z);
+    the inversion is used exactly for |z| > 1 resp. |1 - z| > 1; the tiny-|z| branch returns z + z^2/4"""
+    x, y = ctx.real('re_z'), ctx.real('im_z')
+    calls = []
+    def rec(name):
+        def st(it, a, t):
+            calls.append((name, a[0], list(it.sym.pc)))
+            if isinstance(a[0], _Cx):
+                return _Cx(it.uf(name + '_re', a[0].re, a[0].im), it.uf(name + '_im', a[0].re, a[0].im))
+            return it.uf(name, *a)
+        return st
+    pre = [y != 0]
+    it = Interp(ctx.w, mode='sym', stubs={'log1p': rec('log1p'), 'std::log': rec('log'), 'horner': lambda it_, a, t: _Cx(z3.Real('h_re'), z3.Real('h_im'))},
+                assumptions=pre, div_sides=False)
+    fds = [f for f in ctx.w.find('dilog', DL) if 'complex' in str(f.params[0].type)]
+    if len(fds) != 1:
+        ctx.record('', ERROR, 'B', 0, 'extraction: %d complex overloads of dilog' % len(fds))
+        return
+    paths = []
+    def thunk():
+        n0 = len(calls)
+        r = it.invoke(fds[0], [_Cx(x, y)], None)
+        return (r, calls[n0:])
+    ps = it.run_paths(thunk)
+    ctx.merge_rules(it)
+    n_series = 0
+    for k, (s, rc, e) in enumerate(ps):
+        r, cs = rc
+        if not cs:
+            # tiny |z|: z (1 + z/4)
+            want_re = z3real(x) + (z3real(x) * z3real(x) - z3real(y) * z3real(y)) / 4
+            want_im = z3real(y) + (2 * z3real(x) * z3real(y)) / 4
+            ctx.prove_ring('path%d.tiny' % k, [(r.re, want_re), (r.im, want_im)])
+            continue
+        n_series += 1
+        logs = [c for c in cs if c[0] == 'log']
+        l1ps = [c for c in cs if c[0] == 'log1p']
+        refl = [c for c in logs if _is(c[1].re, x) and _is(c[1].im, y)]
+        if refl:
+            wre, wim, kind = 1 - z3real(x), -z3real(y), 'reflection w = 1 - z'
+        elif l1ps:
+            a = l1ps[0][1]
+            wre, wim, kind = -z3real(a.re), -z3real(a.im), 'w = -(argument of log1p)'
+        else:
+            ctx.record('path%d' % k, FAILED, 'B', 0, 'no logarithm call found on a series path')
+            continue
+        dom = z3.And(wre * wre + wim * wim <= 1, wre <= Fr(1, 2))
+        ctx.prove('path%d.series_domain' % k, pre + s.pc, dom, check_vacuity=False, model_vars={'re_z': x, 'im_z': y})
+    ctx.record('paths', PROVED if n_series == 4 else FAILED, 'B', 0, '%d series paths (direct, inversion x2, reflection), %d paths in all' % (n_series, len(ps)))
+
+def _is(a, b):
+    try:
+        return z3.eq(z3.simplify(z3real(a)), z3.simplify(z3real(b)))
+    except Exception:
+        return False
+
+def replay_cdilog(model, wd):
+    """real complex dilog against mpmath at the counterexample (and a ring of points around it)"""
+    from gm2v import native
+    import mpmath
+    mpmath.mp.dps = 40
+    f = model.get('_float', {}) if model else {}
+    x0, y0 = float(f.get('re_z', 1.5)), float(f.get('im_z', 2.0))
+    exe = native.build_scalar_driver(wd, [DL], [], [('re', 'std::real(dilog(std::complex<double>(a[0],a[1])))', 2), ('im', 'std::imag(dilog(std::complex<double>(a[0],a[1])))', 2)])
+    import math
+    pts = [(x0, y0)] + [(x0 * (1 + 0.05 * i), y0 * (1 - 0.03 * i)) for i in range(1, 6)]
+    # plus a fixed sweep of the complex plane (radii 0.05 .. 20, 24 directions off the real axis)
+    for rad in (0.05, 0.3, 0.7, 0.95, 1.05, 1.3, 1.7, 2.0, 2.5, 3.0, 5.0, 20.0):
+        for k in range(24):
+            th = (k + 0.37) * 2 * math.pi / 24
+            pts.append((rad * math.cos(th), rad * math.sin(th)))
+    vals = native.run_scalar_driver(exe, [(k, [px, py]) for (px, py) in pts for k in ('re', 'im')])
+    worst = None
+    for i, (px, py) in enumerate(pts):
+        got = complex(vals[2 * i], vals[2 * i + 1])
+        want = complex(mpmath.polylog(2, mpmath.mpc(px, py)))
+        err = abs(got - want) / max(abs(want), 1e-300)
+        if worst is None or err > worst[0]:
+            worst = (err, px, py, got, want)
+    err, px, py, got, want = worst
+    return err > 1e-13, 'real dilog(%r%+rj) = %r, Li2 = %r, relative error %.3g (tolerance 1e-13)' % (px, py, got, want, err)
